@@ -1,5 +1,6 @@
 """Helpers shared by the rule modules."""
 from ..mirjson import callee_of
+from ..tyutil import typenum_usize
 from ..prov import An, get_an, pp, walk, strip_generics, bytes_of, contains
 
 HPKE_ERR = 'HpkeError'
@@ -375,9 +376,20 @@ def _is_alias_def(st, al):
     return rv['k'] == 'ref' and rv['place']['p'] == ['deref'] and rv['place']['l'] in al
 
 
-def uses_of_local_blocks(a, l):
+def _is_len_read(x, al):
+    """statement `_ = PtrMetadata(copy alias)` or terminator `len(alias)`: reads the length only, never the bytes"""
+    def whole(o):
+        return isinstance(o, dict) and o.get('k') in ('copy', 'move') and o['place']['l'] in al and not o['place']['p']
+    if x.get('k') == 'assign' and x['rv'].get('k') == 'unop' and x['rv'].get('op') == 'PtrMetadata':
+        return whole(x['rv']['x']) and x['place']['l'] not in al
+    if x.get('k') == 'call' and ((x.get('func') or {}).get('fn') or {}).get('path') == 'core::slice::<impl [T]>::len':
+        return len(x['args']) == 1 and whole(x['args'][0]) and x['dest']['l'] not in al
+    return False
+
+
+def uses_of_local_blocks(a, l, ignore_len=False):
     """blocks in which local l — or a plain copy / whole reborrow of it — occurs as an operand/place base (reads, borrows,
-    call args); the copies themselves are not uses"""
+    call args); the copies themselves are not uses.  ignore_len: reading only the slice's length is not a use"""
     out = set()
     al = alias_locals(a, l)
 
@@ -394,10 +406,11 @@ def uses_of_local_blocks(a, l):
         if blk['cleanup'] or bi not in a.cfg.reach:
             continue
         for st in blk['stmts']:
-            if _is_alias_def(st, al):
+            if _is_alias_def(st, al) or (ignore_len and _is_len_read(st, al)):
                 continue
             scan(st, bi)
-        scan(blk['term'], bi)
+        if not (ignore_len and _is_len_read(blk['term'], al)):
+            scan(blk['term'], bi)
     return out
 
 
@@ -674,3 +687,76 @@ def literal_iteration(a, x):
     if derefs != by_ref:
         return None
     return list(src[3])
+
+
+def explicit_len_guard(a, facts, param=1):
+    """an exact-length guard spelled as a comparison: one branch on `input.len() == N` (or `!=`), N a constant, `T::size()` or
+    `<N as Unsigned>::to_usize()`.  -> {'switch', 'n' (the N term), 'eq_edge', 'ne_edge', 'ne_returns': [(site, term)]} or None"""
+    from ..prov import strip_sites
+    found = []
+    for sb in sorted(a.cfg.reach):
+        blk = a.body.blocks[sb]
+        t = blk['term']
+        if blk['cleanup'] or t['k'] != 'switch':
+            continue
+        d = a.val_op(t['discr'], a.term_point(sb))
+        neg = False
+        while d[0] == 'un' and d[1] == 'Not':
+            d = d[2]
+            neg = not neg
+        if not (d[0] == 'bin' and d[1] in ('Eq', 'Ne')):
+            continue
+        sides = [d[2], d[3]]
+        ln = [x for x in sides if strip_sites(x) == ('len', ('param', param))]
+        other = [x for x in sides if strip_sites(x) != ('len', ('param', param))]
+        if len(ln) != 1 or len(other) != 1:
+            continue
+        n = other[0]
+        if not ((n[0] == 'const' and isinstance(n[2], int)) or (n[0] == 'call' and (n[1].endswith('::to_usize') or n[1] == 'Serializable::size'))):
+            continue
+        is_eq = (d[1] == 'Eq') != neg
+        t_true, t_false = switch_edge(t, 1), switch_edge(t, 0)
+        eq_t, ne_t = (t_true, t_false) if is_eq else (t_false, t_true)
+        if eq_t == ne_t:
+            continue
+        found.append({'switch': sb, 'n': n, 'eq_edge': (sb, eq_t), 'ne_edge': (sb, ne_t)})
+    if len(found) != 1:
+        return None
+    g = found[0]
+    rets = []
+    for s, tt in a.return_terms():
+        if s in (None, 'entry'):
+            continue
+        if a.cfg.edge_dominates(g['ne_edge'][0], g['ne_edge'][1], s[0]):
+            rets.append((s, tt))
+    g['ne_returns'] = rets
+    return g
+
+
+def len_value(facts, n):
+    """the value of a length term: an int, or the type-level name it stands for (symbolic), or None"""
+    if n[0] == 'const' and isinstance(n[2], int):
+        return n[2]
+    if n[0] == 'call' and n[1].endswith('::to_usize') and n[4]:
+        v = typenum_usize(n[4][2] or '')
+        return v if v is not None else n[4][2]
+    if n[0] == 'call' and n[1] == 'Serializable::size' and n[4]:
+        raws = [im['types']['OutputSize'] for im in facts.impls if im.get('trait') == 'Serializable' and im['self_ty'] == n[4][2]]
+        if raws:
+            return raws[0].get('usize') if raws[0].get('usize') is not None else raws[0]['raw']
+    return None
+
+
+def is_incorrect_len_err(tt, n, param=1, facts=None):
+    """tt = Err(HpkeError::IncorrectInputLength(n, input.len())) — n the same term, or (with facts) the same value"""
+    from ..prov import strip_sites
+    if not is_err_agg(tt):
+        return False
+    pl = tt[3][0]
+    if not (pl[0] == 'agg' and pl[2] == HPKE_ERR + '::IncorrectInputLength' and len(pl[3]) == 2):
+        return False
+    same = strip_sites(pl[3][0]) == strip_sites(n)
+    if not same and facts is not None:
+        v = len_value(facts, strip_sites(n))
+        same = v is not None and v == len_value(facts, strip_sites(pl[3][0]))
+    return same and strip_sites(pl[3][1]) == ('len', ('param', param))
